@@ -197,7 +197,10 @@ def body_noise(ctx, n, container, col, warm=None):
     f, t = _window(ctx, n)
     x0 = ctx.real("x0")
 
+    choices = []
+
     def choice(a, *args, **kw):
+        choices.append((list(a), args, kw))
         b = cur().bool("step_up")
         return Sym(__import__("z3").If(b.z, __import__("z3").IntVal(1), __import__("z3").IntVal(-1))) if cur().symbolic else (1 if b else -1)
 
@@ -210,6 +213,8 @@ def body_noise(ctx, n, container, col, warm=None):
     _untouched(ctx, snapshot, out, f, t, {col})
     o = _cells(out)
     steps = t - f
+    # the walk draws each step uniformly from {+1, -1} (an argument obligation: the draw itself is numpy's)
+    ctx.prove(all(sorted(c[0]) == [-1, 1] and not c[1] and not c[2] for c in choices), "walk-steps-drawn-uniformly-from-plus-minus-one")
     if steps:
         w = [o[r, col] - snapshot[r, col] for r in range(f, t)]
         ctx.prove(ctx.eq(w[0], x0), "walk-starts-at-x0")
